@@ -233,4 +233,6 @@ package shutterevents
 //@ // dispatch on the type string; unknown types are an error (callers inline the dispatch: opt inline=always)
 //@ func MakeEvent
 //@   opt inline=always
-//@   ensures ret1 == nil ==> ret0 != nil
+//@   // on success the interface holds a non-nil event pointer (on error it holds a typed nil pointer: callers
+//@   // must look at the error, not at the interface value)
+//@   ensures ret1 == nil ==> (ret0 != nil && payload(ret0) != 0)
